@@ -1,7 +1,9 @@
 SPECIFICATION Spec
 CONSTANTS
-  Subs = {"a", "b"}
-  Timeouts = {6, 12}
+  Subs1 = {"a"}
+  Timeouts1 = {3}
+  Subs2 = {"b"}
+  Timeouts2 = {17}
   Tick = 5
   UnitMs = 100
   Exact = FALSE
